@@ -116,24 +116,6 @@ def foreign_uniform(args, impl, model):
     return "!model-" not in model and not model.startswith("bad-")
 
 
-def with_base_threshold(args):
-    """base conversion whose exponent magnitude lies between the direct-power thresholds of the two word sizes
-    (Word::BITS * 0.60206 = 19 resp. 38): the 32-bit build takes the ln/exp path, the 64-bit build the exact one"""
-    inner = args if (args and "/" in args[0]) else args[1:]
-    if not inner or not inner[0].split("/")[-1].startswith("f.with_base"):
-        return False
-    for a in inner[1:]:
-        m = re.fullmatch(r"f:(\d+):(-?[0-9a-f]+):(-?\d+):(\d+):\w+", a)
-        if m:
-            B, sig, e = int(m.group(1)), int(m.group(2), 16), int(m.group(3))
-            if sig == 0:
-                return False
-            while sig % B == 0:
-                sig //= B; e += 1
-            return 19 < abs(e) <= 38
-    return False
-
-
 # ---------------------------------------------------------------------------------- input classes of the C19 findings
 
 def _inner(args, op):
@@ -373,6 +355,11 @@ def gen_decode_pc(rng, tier):
         for d in [0, 1, 2, 3, 4, 6, 256, 2 ** 64, 2 ** 128, 3 * 2 ** 70, rng.getrandbits(130) | 1]:
             for t in ("q", "x"):
                 yield emit(t, pc_i(n) + pc_u(d))
+    # non-reduced with an ODD common factor: RBig must come out in lowest terms (reduce), Relaxed keeps it (reduce2)
+    for n, d in [(6, 9), (-15, 35), (21, 49), (9, 3), (-45, 75), (3 * (2 ** 64 + 13), 7 * (2 ** 64 + 13)), (-(3 ** 50), 3 ** 48 * 5),
+                 (30, 105), (12, 18), (-(2 ** 70) * 9, 2 ** 3 * 27)]:
+        for t in ("q", "x"):
+            yield emit(t, pc_i(n) + pc_u(d))
     for t in ("q", "x"):
         yield emit(t, pc_bytes(b"\0") + pc_u(5))             # -0 / 5
         yield emit(t, pc_bytes(b"\0") + pc_u(0))             # -0 / 0
@@ -425,7 +412,8 @@ INT_TEXTS = ["0", "1", "-1", "+1", "-0", "+0", "00", "007", "-007", "12345678901
              "+0b101", "0b102", "0o17", "0o18", "0x1_0", "ff", "1e3", "1.0", "12a", "١", "0x-1", "0b", "0o", "١٢٣", "1/1",
              "340282366920938463463374607431768211456", "-340282366920938463463374607431768211455", "18446744073709551616",
              "0x10000000000000000", "0b" + "1" * 130, "-0o" + "7" * 50, "9" * 400]
-RATIO_TEXTS = ["1/2", "-1/2", "1/-2", "-1/-2", "+1/+2", "2/4", "6/4", "0/5", "0/0", "1/0", "-1/0", "5/0", "0/1", "-0/1", "-0/0",
+RATIO_TEXTS = ["6/9", "-15/35", "21/49", "9/3", "15/-5", "0x9/0x1b", "-0b1111/0b100011", "30/105", "1000000007000000021/3000000021000000063",
+               "1/2", "-1/2", "1/-2", "-1/-2", "+1/+2", "2/4", "6/4", "0/5", "0/0", "1/0", "-1/0", "5/0", "0/1", "-0/1", "-0/0",
                "1/", "/2", "/", "1//2", "1/2/3", "0x10/0x20", "0x10/20", "0x10/0b1", "10/0x20", "0b11/0b110", "1_0/2_0", "1 /2",
                "1/ 2", "7", "-7", "4/2", "4/6", "1/1", "12345678901234567890123/456", "256/1024", "-1024/256", "3/0x0", "0x0/0x0",
                "0b0/0b0", "1/_", "_/1", "1/+0", "1/-0", "0/-0", "-4/-6", "4/00", "18446744073709551616/36893488147419103232",
@@ -554,6 +542,40 @@ def wrap_other(rng, tier, confs):
                 yield Case("cfgall", [group + "/" + op] + args)
 
 
+def gen_conv_directed(rng, tier):
+    """conversions of 65..131-bit integers to f32 / f64 at the rounding boundary: these magnitudes are inline double
+    words with 64-bit words but heap values with 32-bit words, so the two builds take different functions
+    (`to_f32_small` vs `to_f32_nontrivial`).  Exact ties, ties plus one low bit at every kind of position (bit 0, word
+    boundaries of both word sizes, just below the round bit), all-ones below the round bit; plus C06's own
+    single-bit boundary probes for these lengths."""
+    for ty, p in (("f32", 24), ("f64", 53)):
+        for n in list(range(65, 72)) + [80, 95, 96, 97, 100, 120, 126, 127, 128, 129, 130, 131]:
+            for top in ((1 << (p - 1)) | 1, (1 << (p - 1)), (1 << p) - 1, (1 << p) - 2, (1 << (p - 1)) | rng.getrandbits(p - 1)):
+                base = top << (n - p)
+                rb = 1 << (n - p - 1)
+                lows = {0, 1, 2, 30, 31, 32, 33, 62, 63, 64, 65, n - p - 2, n - p - 3}
+                pats = [base, base | rb, base | (rb - 1), base | rb | (rb - 1)]
+                pats += [base | rb | (1 << j) for j in lows if 0 <= j < n - p - 1]
+                pats += [base | (1 << j) for j in lows if 0 <= j < n - p - 1]
+                for x in pats:
+                    yield Case("cfgall", ["conv/u.to_" + ty, hx(x)])
+                    if rng.random() < 0.4:
+                        yield Case("cfgall", ["conv/i.to_" + ty, hx(-x)])
+    try:
+        c06 = importlib.import_module("vlib.props.c06")
+        sub = random.Random(rng.getrandbits(64))
+        keep = []
+        for c in c06.gen_boundary(sub, "quick"):
+            if c.op in ("u.to_f32", "i.to_f32", "u.to_f64", "i.to_f64") and 65 <= int(c.args[0].lstrip("-"), 16).bit_length() <= 131:
+                keep.append(c)
+        if tier == "quick" and len(keep) > 800:
+            keep = sub.sample(keep, 800)
+        for c in keep:
+            yield Case("cfgall", ["conv/" + c.op] + c.args)
+    except Exception as e:
+        core.log("C19: C06 boundary generator unavailable (%s)" % e)
+
+
 def words32(rng, tier):
     """operands whose length in *32-bit* words sits on the word-count thresholds of mul / div /
     add (24, 32, 192, …) — in 64-bit builds these are half as many words, so each build takes a
@@ -624,4 +646,5 @@ def generate(rng, tier):
     yield from gen_decode_pc(rng, tier)
     yield from gen_decode_json(rng, tier)
     yield from words32(rng, tier)
+    yield from gen_conv_directed(rng, tier)
     yield from wrap_other(rng, tier, confs)
